@@ -529,13 +529,26 @@ where B: StarkField + ExtensibleField<2> + ExtensibleField<3> + 'static, H: Elem
     finish_run::<XAir<B>, H, _>(res, pi, opts)
 }
 
-/// the library's debug-only degree diagnostics (prover/src/constraints/evaluation_table.rs validate_transition_degrees)
-fn is_degree_diagnostic(out: &str) -> bool {
+/// which of the two assertions of the library's debug-only degree validation (prover/src/constraints/evaluation_table.rs
+/// validate_transition_degrees) is this outcome, if any: "degrees" | "domain-size"
+fn diagnostic_kind(out: &str) -> Option<&'static str> {
+    if !out.starts_with("prove-panic:") { return None; }
     // assert_eq! prefixes the message with "assertion `left == right` failed: "
-    out.starts_with("prove-panic:") && (out[..out.len().min(110)].contains("transition constraint degrees didn't match") || out[..out.len().min(110)].contains("incorrect constraint evaluation domain size"))
+    let head = &out[..out.len().min(110)];
+    if head.contains("transition constraint degrees didn't match") { Some("degrees") } else if head.contains("incorrect constraint evaluation domain size") { Some("domain-size") } else { None }
 }
-/// does the reference predict that the debug-only degree validation is satisfied by the last X run?
-fn x_predicted_exact() -> bool { let l = xlog(); l.main_exact && l.domain_ok && l.aux_exact.unwrap_or(true) }
+/// Reference prediction for the last X run in a DEBUG build: which assertion of validate_transition_degrees fires (the degree comparison comes
+/// first in the library, the domain-size comparison second); None = the validation is satisfied
+fn x_predicted_diagnostic() -> Option<&'static str> {
+    let l = xlog();
+    if !l.main_exact || l.aux_exact == Some(false) { Some("degrees") } else if !l.domain_ok { Some("domain-size") } else { None }
+}
+/// open finding F-C01-debug-degree-diagnostics: a DEBUG build, an X case, the reference predicts the diagnostic and the library panics with
+/// exactly that assertion.  Must be called right after run_case (reads the reference log of that run).
+fn known_diagnostic(c: &Case, out: &str) -> Option<&'static str> {
+    if !cfg!(debug_assertions) || c.x.is_none() { return None; }
+    match (x_predicted_diagnostic(), diagnostic_kind(out)) { (Some(p), Some(k)) if p == k => Some(k), _ => None }
+}
 
 const FIELDS: [&str; 3] = ["f62", "f64", "f128"];
 fn hashers_of(field: &str) -> &'static [&'static str] {
@@ -729,7 +742,7 @@ fn shrink(c: &Case, out: &str, budget: &mut usize) -> (Case, String) {
             if cand == cur || !admissible(&cand) { continue; }
             *budget -= 1;
             let o = run_case(&cand);
-            if o != "ok" && o != "invalid-trace" && fail_class(&o) == class { cur = cand; cur_out = o; continue 'outer; }
+            if o != "ok" && o != "invalid-trace" && fail_class(&o) == class && known_diagnostic(&cand, &o).is_none() { cur = cand; cur_out = o; continue 'outer; }
         }
         break;
     }
@@ -737,7 +750,7 @@ fn shrink(c: &Case, out: &str, budget: &mut usize) -> (Case, String) {
 }
 
 // ------------------------------------------------------------------------------------------------ generators
-struct Tally { last_cell: bool, evals: usize, fails: usize, skipped: usize, classes: Vec<String>, strata: std::collections::BTreeMap<String, usize> }
+struct Tally { diag_seen: Vec<&'static str>, last_cell: bool, evals: usize, fails: usize, skipped: usize, classes: Vec<String>, strata: std::collections::BTreeMap<String, usize> }
 
 fn check(c: &Case, t: &mut Tally, stratum: &str) {
     if !admissible(c) {
@@ -762,17 +775,29 @@ fn check(c: &Case, t: &mut Tally, stratum: &str) {
     t.last_cell = false;
     *t.strata.entry(stratum.to_string()).or_insert(0) += 1;
     if let Some(x) = &c.x {
-        // debug profile: the prover's debug-only degree validation compares declared and actual constraint degrees; a trace on which the
-        // REFERENCE computation says they differ (degenerate columns) may trip it (see notes/C01.design.md, "Coverage round"); every other
-        // outcome than ok / that diagnostic is a failure, and a trace the reference calls degree-exact must be proved
-        let (l, exact) = (xlog(), x_predicted_exact());
-        if cfg!(debug_assertions) && !exact && is_degree_diagnostic(&out) {
-            *t.strata.entry(format!("debug-degree-diagnostic:{}", if !l.domain_ok { "domain-size" } else if !l.main_exact { "main" } else { "aux" })).or_insert(0) += 1;
+        // debug profile: the prover's debug-only degree validation compares declared and actual constraint degrees and panics on valid traces on
+        // which they differ (degenerate columns) and on some degree-exact ones (domain-size assertion): open finding F-C01-debug-degree-diagnostics
+        // (notes/C01.design.md, "Coverage round").  A panic is attributed to that finding only if the REFERENCE computation predicts exactly that
+        // assertion; it is then reported with a "what" the finding's signature matches, one line per kind per run (the rest is counted).  A predicted
+        // diagnostic that does not fire, any other panic, and that assertion where the reference predicts none are ordinary failures.
+        let l = xlog();
+        if let Some(kind) = known_diagnostic(c, &out) {
+            *t.strata.entry(format!("debug-degree-diagnostic:{}", kind)).or_insert(0) += 1;
             if std::env::var("C01_SHOW_DIAGNOSTICS").is_ok() { eprintln!("diagnostic {} {:?} {} {}", stratum, l, out, case_json(c)); }
+            if !t.diag_seen.contains(&kind) {
+                t.diag_seen.push(kind);
+                println!("{{\"what\":{},\"input\":{},\"expected\":\"prove Ok; verify Ok (the property names no build profile; release builds prove and verify this case)\",\"actual\":{},\"stratum\":{},\"reference\":{},\"replay\":{}}}",
+                    jstr(&format!("debug-degree-diagnostic:{}: {}", kind, &out["prove-panic:".len()..])), case_json(c), jstr(&out), jstr(stratum), jstr(&format!("{:?}", l)), jstr(&format!("c01 replay '{}'", case_json(c))));
+            }
             return;
         }
         if out == "ok" {
-            if cfg!(debug_assertions) && !exact { *t.strata.entry("debug-degree-diagnostic:predicted-but-silent".to_string()).or_insert(0) += 1; return; }
+            if cfg!(debug_assertions) { if let Some(kind) = x_predicted_diagnostic() {
+                t.fails += 1;
+                println!("{{\"what\":\"harness:reference-predicts-debug-degree-diagnostic-but-prover-is-silent\",\"input\":{},\"expected\":{},\"actual\":\"ok\",\"stratum\":{},\"reference\":{},\"replay\":{}}}",
+                    case_json(c), jstr(&format!("debug build: validate_transition_degrees panics ({})", kind)), jstr(stratum), jstr(&format!("{:?}", l)), jstr(&format!("c01 replay '{}'", case_json(c))));
+                return;
+            } }
             let (s, e) = (&c.spec, c.spec.exemptions);
             let tot = x_aux_total(s, x);
             let shape = if tot == 0 { "none" } else if tot < s.width { "lt" } else if tot == s.width { "eq" } else { "gt" };
@@ -1145,6 +1170,13 @@ fn x_stream(r: &mut Rng, t: &mut Tally, n_random: usize, reps: usize) {
         let c = Case { x: Some(X { lagx, rows: 2, aux: 1, first: 1, stride: 2 }), lag: 0, field: f, hasher: h, opts: Opts { q: 3, blowup: 4, grind: 0, ext, fold: 4, rem: 7 }, spec: s };
         check(&c, t, "x-aux-sequence:>=64-values");
     }
+    // ---- pinned minimal case of the "degrees" kind of the open finding F-C01-debug-degree-diagnostics: one constant column, 2 exemptions
+    // (declared degree 1 -> expected quotient degree 1, actual 0); the "domain-size" kind is pinned by the strata x-degree:n=... above
+    {
+        let mut s = Spec::simple(1, 3, 1, 1); s.hold = vec![true]; s.exemptions = 2;
+        let c = Case { x: Some(X { lagx: false, rows: 0, aux: 0, first: 0, stride: 2 }), lag: 0, field: "f64".into(), hasher: "blake3_256".into(), opts: Opts { q: 2, blowup: 4, grind: 0, ext: 1, fold: 2, rem: 1 }, spec: s };
+        check(&c, t, "x-degenerate:constant-column-e2");
+    }
     // ---- the plain Lagrange-kernel family (degree-1 constraints, one exemption: always degree-exact) on 8..64 rows
     for f in FIELDS { for ext in 1..=3u8 { for &(log_n, aw) in &[(3u32, 2usize), (4, 3), (5, 8), (6, 2)] {
         if !ext_supported(f, ext) { continue; }
@@ -1499,7 +1531,7 @@ fn main() {
         }
         Some("falsify") => {
             let thorough = args.get(4).map(|s| s == "thorough").unwrap_or(false);
-            let mut t = Tally { last_cell: false, evals: 0, fails: 0, skipped: 0, classes: vec![], strata: Default::default() };
+            let mut t = Tally { diag_seen: vec![], last_cell: false, evals: 0, fails: 0, skipped: 0, classes: vec![], strata: Default::default() };
             boundary_stream(&mut r, &mut t, thorough);
             oracle_crosscheck(&mut r, &mut t, if thorough { 3000 } else { 300 });
             let b = t.evals;
@@ -1512,7 +1544,7 @@ fn main() {
         Some("xfalsify") => {
             // the X stream of the coverage round; meant to be run with the DEBUG build (debug-only self-checks of the prover) and the release build
             let reps: usize = args.get(4).and_then(|s| s.parse().ok()).unwrap_or(3);
-            let mut t = Tally { last_cell: false, evals: 0, fails: 0, skipped: 0, classes: vec![], strata: Default::default() };
+            let mut t = Tally { diag_seen: vec![], last_cell: false, evals: 0, fails: 0, skipped: 0, classes: vec![], strata: Default::default() };
             x_stream(&mut r, &mut t, n, reps);
             x_crosscheck(&mut r, &mut t, (n / 2).max(60));
             let strata: Vec<String> = t.strata.iter().map(|(k, v)| format!("{}={}", k, v)).collect();
@@ -1524,7 +1556,7 @@ fn main() {
             let c = case_of_json(args.get(2).expect("json"));
             let adm = admissible(&c);
             println!("admissible={} outcome={}", adm, run_case(&c));
-            if c.x.is_some() { println!("profile={} reference: {:?} predicted-degree-exact={}", if cfg!(debug_assertions) { "debug" } else { "release" }, xlog(), x_predicted_exact()); }
+            if c.x.is_some() { println!("profile={} reference: {:?} predicted-debug-diagnostic={:?}", if cfg!(debug_assertions) { "debug" } else { "release" }, xlog(), x_predicted_diagnostic()); }
         }
         Some("probe") => probe(&mut r, n),
         _ => { eprintln!("usage: c01 corr <seed> <n> <group> | c01 falsify <seed> <n> [thorough] | c01 replay '<json>' | c01 probe <seed> <n> | c01 xfalsify <seed> <n> [reps]"); std::process::exit(2); }
